@@ -182,6 +182,59 @@ def ad_family(n, seed):
     return out
 
 
+def repvar_family(n, seed):
+    """One binary predicate called both with a repeated variable, e(X,X), and with distinct variables, e(X,Y) - from rule
+    bodies and from queries, in either order (the two call patterns are different goals with different answers)."""
+    rng = random.Random(seed * 6007 + 13)
+    out, seen, tries = [], set(), 0
+    while len(out) < n and tries < 60 * n + 100:
+        tries += 1
+        consts = ["c1", "c2", "c3"][:rng.randint(2, 3)]
+        p = progs.empty_program(consts)
+        pairs = [(a, b) for a in consts for b in consts]
+        rng.shuffle(pairs)
+        chosen = pairs[:rng.randint(2, 5)]
+        if not any(a == b for a, b in chosen) or not any(a != b for a, b in chosen):
+            continue
+        for a, b in chosen:
+            if rng.random() < 0.6:
+                p["facts"].append({"p": [rng.randint(1, 9), 10], "atom": atom("e", a, b)})
+            else:
+                p["rules"].append({"head": atom("e", a, b), "body": []})
+        for c in consts:
+            p["rules"].append({"head": atom("d", c), "body": []})
+        rules = [
+            {"head": atom("same"), "body": [lit(atom("e", "X", "X"))]},
+            {"head": atom("any"), "body": [lit(atom("e", "X", "Y"))]},
+            {"head": atom("loop", "X"), "body": [lit(atom("e", "X", "X"))]},
+            {"head": atom("out", "X"), "body": [lit(atom("e", "X", "Y"))]},
+            {"head": atom("both", "X"), "body": [lit(atom("e", "X", "Y")), lit(atom("e", "Y", "Y"))]},
+            {"head": atom("both2", "X"), "body": [lit(atom("e", "X", "X")), lit(atom("e", "X", "Y"))]},
+        ]
+        if rng.random() < 0.4:      # recursion through both call patterns
+            rules.append({"head": atom("e", "X", "Y"), "body": [lit(atom("d", "X")), lit(atom("d", "Y")), lit(atom("e", "Y", "Y")), lit(atom("e", "X", "X"))]})
+        rng.shuffle(rules)
+        p["rules"] += rules[:rng.randint(2, 5)]
+        heads = [r["head"] for r in p["rules"] if r["head"]["f"] not in ("e", "d")]
+        qs = []
+        for h in heads:
+            qs.append(atom(h["f"], *["V%d" % i for i in range(len(h["a"]))]) if h["a"] else atom(h["f"]))
+        qs += rng.sample([atom("e", "W", "W"), atom("e", "V", "W"), atom("e", "c1", "W")], rng.randint(1, 3))
+        rng.shuffle(qs)
+        seenq = set()
+        for q in qs:
+            k = json.dumps(q, sort_keys=True)
+            if k not in seenq:
+                seenq.add(k)
+                p["queries"].append(q)
+        c = progs.canon(p)
+        if c in seen:
+            continue
+        seen.add(c)
+        out.append(p)
+    return out
+
+
 def negloop_templates(n, seed):
     """A negative loop (p -> not s -> ... -> p, possibly with an earlier non-negative proof of p) that is reached from
     inside / outside a positive cycle which is still open, closed, or absent; ground atoms, 2-3 facts."""
